@@ -38,6 +38,8 @@ for c in $CHECKS; do
 done
 git -C /repo checkout -- .
 rm -rf /tmp/seeded-scratch-verif
+# the binary in target/ was built from the patched tree: rebuild it from the clean one
+(cd /verif && CARGO_NET_OFFLINE=true cargo build --release --offline -p dst >/dev/null 2>&1)
 echo "checks:$RES" | tee -a "$OUT/confirm.log"
 python3 - "$OUT" "$SUITE" "$WITH" "$WITHOUT" "$RES" <<'PY'
 import json,sys,os
